@@ -1,6 +1,6 @@
 """property -> rule sets (DESIGN §4)"""
 from engine import ok, bad, assumed, floor
-import r_lock, r_panic, r_errd, r_order, r_misc, r_nowrap, r_desc, r_registry, r_effects, r_value, r_ctx, r_parse, r_num
+import r_lock, r_panic, r_errd, r_order, r_misc, r_nowrap, r_desc, r_registry, r_effects, r_value, r_ctx, r_parse, r_num, r_slice, r_term
 
 PROPS = {}
 
@@ -317,3 +317,92 @@ def c09(ctx):
     obs += r_value.rule_tacc(prog)
     obs += r_value.rule_htyped(prog, prog.builtin_handlers())
     return obs, {'analysed': {'number_path_bodies': len(bodies)}}
+
+
+def slice_model(ctx):
+    if 'sm' not in ctx.cache:
+        sm = r_slice.SliceModel(ctx.prog, parse_roles(ctx))
+        ctx.cache['sm_obs'] = r_slice.rule_slice(sm)
+        ctx.cache['sm'] = sm
+    return ctx.cache['sm'], ctx.cache['sm_obs']
+
+
+def slice_dischargers(ctx):
+    """extra PANIC dischargers that rest on the SLICE verdicts"""
+    from analysis import single_origin, trace_operand, defuse
+    from facts import op_place, op_const_int
+    sm, _ = slice_model(ctx)
+
+    def d_slice(site):
+        if site.cls == 'index' and site.call is not None and (site.call.rdef or '') == r_slice.STR_INDEX:
+            if sm.verdicts.get((site.body.id, site.bb)):
+                return ('SLICE', 'both bounds proved char boundaries of the input (SLICE rule); lower bound yielded before the upper bound was read (monotone iterator positions)')
+        return None
+
+    def d_bound(site):
+        """index + (1 | len_utf8) / position - 1 feeding a SLICE-proved bound: a str index is <= isize::MAX, so +<=4 cannot overflow;
+        the -1 is the vetted string-payload bound (at least the closing quote was consumed)"""
+        t = site.term
+        if site.cls != 'assert' or not t or t['kind'] != 'Overflow':
+            return None
+        body = site.body
+        cl = op_place(t['cond'])
+        if cl is None:
+            return None
+        for (b, i, kind, payload, dproj) in defuse(body).defs.get(cl['l'], []):
+            if kind == 'assign' and payload['k'] == 'binop' and payload.get('aty') == 'usize':
+                if payload['op'] == 'AddWithOverflow':
+                    r, w = sm.is_b(body, payload['a'])
+                    bo = single_origin(trace_operand(body, payload['b'], through_calls=set()))
+                    small = (op_const_int(payload['b']) is not None and 0 <= op_const_int(payload['b']) <= 4) or \
+                            (bo is not None and bo.kind == 'callres' and (bo.data.callee or '').endswith('::len_utf8'))
+                    if r and small:
+                        return ('D-bound', 'char boundary (<= isize::MAX) + at most 4 cannot overflow usize')
+                if payload['op'] == 'SubWithOverflow' and op_const_int(payload['b']) == 1:
+                    # must be the operand of a vetted slice bound in this body
+                    for c in body.live_calls:
+                        if (c.rdef or '') == r_slice.STR_INDEX and sm.verdicts.get((body.id, c.bb)):
+                            rb = r_slice.range_bounds(body, c)
+                            if rb and rb[1] is not None:
+                                o = single_origin(trace_operand(body, rb[1], through_calls=set()))
+                                if o is not None and o.kind == 'binop' and o.data[0] == b and o.data[1] == i:
+                                    return ('D-vetted', 'position after the consumed closing quote minus 1 (vetted string-payload bound, preconditions re-checked by SLICE)')
+        return None
+    return [d_slice, d_bound]
+
+
+def parse_scope(ctx):
+    prog = ctx.prog
+    ents = [prog.api(n) for n in ('parse_expression', "parser::ExprAST::<'a>::expr", "parser::ExprAST::<'a>::describe")]
+    ents = [e for e in ents if e]
+    ids = prog.reach([e.id for e in ents])
+    return [prog.by_id[i] for i in sorted(ids)], ents
+
+
+@prop('C01',
+      'Over Reach(parse_expression, ExprAST::expr, ExprAST::describe): (i) PANIC — every panic site (Assert terminators, unwrap/expect, Index, may_panic.tsv callees, Decimal operator traits) is discharged by D-guard, D-total, D-lock, D-range, D-vetted, D-bound or SLICE; '
+      '(ii) SLICE — char-boundary typestate: both bounds of every str slice of the tokenizer input are proved char boundaries (items of the input\'s own CharIndices, input.len(), B-returning bodies / B-passing call sites, idx + len_utf8(ch) of one item, b + 1 only with an ASCII proof from the dispatching switch); '
+      '(iii) LOOP — in every CFG cycle, removing the blocks that consume a character (ADVANCE on the real char iterator or on a clone made before the loop), a token (a parser call every Ok path of which reaches TOKEN-NEXT) or a finite-iterator item must leave no cycle; '
+      '(iv) REC — every recursive SCC of the call graph in that reach set must pass a depth guard. (i)-(iv) together are sufficient for "returns Ok or Err; never panics, overflows the stack or spins", modulo the stated assumptions. execute = parse + exec; the exec half is C04.',
+      not_decided='nothing of the statement is left out, but sufficiency rests on: external callees outside the tables do not panic; at EOF every parser loop leaves (an exit edge exists; that it is taken is not checked); slice lower <= upper by monotonicity of iterator positions',
+      assumptions=COMMON_ASSUME + ['TOKEN-NEXT returns the EOF token without advancing only at end of input, where every parser loop has an exit',
+                                   'slice lower bound <= upper bound: lower bounds are indices yielded before the upper bound was read (monotone iterator positions)'])
+def c01(ctx):
+    prog = ctx.prog
+    roles = parse_roles(ctx)
+    obs = r_parse.rule_floors(roles)
+    if any(o.status == 'violated' for o in obs):
+        return obs, {}
+    bodies, ents = parse_scope(ctx)
+    obs.append(floor('PANIC', 'entries', len(ents), 3, 'parse_expression, ExprAST::expr, ExprAST::describe'))
+    sm, sobs = slice_model(ctx)
+    obs += sobs
+    pobs, sites = r_panic.evaluate(bodies, extra_dischargers=slice_dischargers(ctx))
+    obs += pobs
+    tm = r_term.TermModel(prog, roles)
+    lobs, nloops = r_term.rule_loop(tm, bodies)
+    obs += lobs
+    robs, nscc = r_term.rule_rec(tm, [b.id for b in bodies])
+    obs += robs
+    obs.append(floor('LOOP', 'loops', nloops, 10, 'tokenizer scanners, parser loops and renderer loops'))
+    return obs, {'analysed': {'scope_bodies': len(bodies), 'panic_sites': len(sites), 'loops': nloops, 'recursive_sccs': nscc}}
